@@ -847,39 +847,116 @@ func r01_9(c *Ctx, rule string) {
 		c.R.OK(rule, c.name(w)+"/no-retry", c.P.Pos(w.Pos()), "no permission retry: nothing to restore")
 		return
 	}
-	isRec := func(in ssa.Instruction) bool {
-		s, ok := in.(*ssa.Store)
+	// where the mode is kept: the field(s) of the writer that Write assigns the
+	// file's own mode to (a *FileMode that is nil until then, or a FileMode next
+	// to a flag that says "recorded")
+	modeFields := map[string]bool{}
+	var recStores []*ssa.Store
+	eng.Instrs(w, func(in ssa.Instruction) {
+		st, ok := in.(*ssa.Store)
 		if !ok {
-			return false
+			return
 		}
-		fa, ok := s.Addr.(*ssa.FieldAddr)
-		return ok && eng.FieldOwnerName(fa.X.Type(), fa.Field) == "fsutil.lazyFileWriter.fileMode"
+		fa, ok := st.Addr.(*ssa.FieldAddr)
+		if !ok || !strings.HasPrefix(eng.FieldOwnerName(fa.X.Type(), fa.Field), "fsutil.lazyFileWriter.") {
+			return
+		}
+		isMode := func(v ssa.Value) bool { return c.isCallValueTo(v, "(io/fs.FileInfo).Mode") }
+		if c.DerivesFrom(st.Val, isMode, 6) {
+			modeFields[eng.FieldOwnerName(fa.X.Type(), fa.Field)] = true
+			recStores = append(recStores, st)
+			// the whole mode: a write by a non-owner clears setuid/setgid, the
+			// restoring chmod is what brings them (and the sticky bit) back
+			whole := c.DerivesFromAvoiding(st.Val, isMode, func(v ssa.Value) bool {
+				if c.isCallValueTo(v, "(io/fs.FileMode).Perm", "(io/fs.FileMode).Type") {
+					return true
+				}
+				bo, isB := v.(*ssa.BinOp)
+				return isB && (bo.Op == token.AND || bo.Op == token.AND_NOT)
+			}, 6)
+			c.R.Check(whole, rule, c.name(w)+"/whole-mode-recorded", c.pos(st), "the recorded mode is the file's whole mode", "the mode recorded for restoring is cut down (Perm(), a mask): the chmod back after a forced write drops setuid/setgid/sticky, which the write itself may have cleared")
+		}
+	})
+	if len(modeFields) == 0 {
+		c.R.Fail(rule, c.name(w)+"/mode-recorded-before-widening", c.pos(chm), "the mode is widened without the file's own mode being kept in the writer: Close cannot put it back")
+		return
+	}
+	// flags set to true together with the mode
+	flagFields := map[string]bool{}
+	eng.Instrs(w, func(in ssa.Instruction) {
+		st, ok := in.(*ssa.Store)
+		if !ok {
+			return
+		}
+		fa, ok := st.Addr.(*ssa.FieldAddr)
+		if !ok {
+			return
+		}
+		o := eng.FieldOwnerName(fa.X.Type(), fa.Field)
+		if !strings.HasPrefix(o, "fsutil.lazyFileWriter.") || modeFields[o] {
+			return
+		}
+		if k, isC := st.Val.(*ssa.Const); isC && eng.IsBoolConst(k, true) {
+			for _, rs := range recStores {
+				if rs.Block() == st.Block() {
+					flagFields[o] = true
+				}
+			}
+		}
+	})
+	isModeLoad := func(v ssa.Value) bool {
+		for f := range modeFields {
+			if isFieldLoad(v, f) {
+				return true
+			}
+		}
+		return false
+	}
+	isRec := func(in ssa.Instruction) bool {
+		for _, rs := range recStores {
+			if in == ssa.Instruction(rs) {
+				return true
+			}
+		}
+		return false
 	}
 	c.ObPrecedes(rule, c.name(w)+"/mode-recorded-before-widening", w, nil, isRec, func(in ssa.Instruction) bool { return in == ssa.Instruction(chm) }, "recording the original mode", "widening the mode")
-	for _, s := range fieldStoresIn(w, "fsutil.lazyFileWriter.fileMode") {
-		ok := c.DerivesFrom(s.Val, func(v ssa.Value) bool { return c.isCallValueTo(v, "(io/fs.FileInfo).Mode") }, 6)
-		c.R.Check(ok, rule, c.name(w)+"/mode-from-file", c.pos(s), "the recorded mode is the file's own", "the mode recorded for restoring is not the file's own mode")
-	}
+	c.R.OK(rule, c.name(w)+"/mode-from-file", c.pos(recStores[0]), "the recorded mode is the file's own")
 	// Close restores it
 	x := c.explorer(cl)
 	as := map[string]bool{}
 	eng.Instrs(cl, func(in ssa.Instruction) {
-		bo, ok := in.(*ssa.BinOp)
-		if !ok || (bo.Op != token.EQL && bo.Op != token.NEQ) {
-			return
-		}
-		if k, isC := bo.Y.(*ssa.Const); isC && k.IsNil() && isFieldLoad(bo.X, "fsutil.lazyFileWriter.fileMode") {
-			as[x.KeyAtEntry(bo)] = bo.Op == token.NEQ
+		switch v := in.(type) {
+		case *ssa.BinOp:
+			if v.Op != token.EQL && v.Op != token.NEQ {
+				return
+			}
+			if k, isC := v.Y.(*ssa.Const); isC && k.IsNil() && isModeLoad(v.X) {
+				as[x.KeyAtEntry(v)] = v.Op == token.NEQ
+			}
+		case *ssa.UnOp:
+			if v.Op == token.MUL {
+				for f := range flagFields {
+					if isFieldLoad(v, f) {
+						as[x.KeyAtEntry(v)] = true
+					}
+				}
+			}
 		}
 	})
+	recorded := len(as) > 0
 	for _, call := range c.P.CallsTo(cl, "(*os.File).Close") {
 		k, _, _ := c.errValueOf(call)
 		as["("+k+"==nil)"] = true
 	}
-	c.ObSuccessNeeds(rule, c.name(cl)+"/mode-restored", cl, nil, as, c.callPred("os.Chmod"), "restoring the recorded mode (a mode was recorded, the file closed cleanly)")
+	if !recorded {
+		c.R.Fail(rule, c.name(cl)+"/mode-restored", c.P.Pos(cl.Pos()), "Close does not ask whether a mode was recorded")
+	} else {
+		c.ObSuccessNeeds(rule, c.name(cl)+"/mode-restored", cl, nil, as, c.callPred("os.Chmod"), "restoring the recorded mode (a mode was recorded, the file closed cleanly)")
+	}
 	for _, call := range c.P.CallsTo(cl, "os.Chmod") {
 		a := call.Common().Args
-		ok := isFieldLoad(a[0], "fsutil.lazyFileWriter.dest") && c.DerivesFrom(a[1], func(v ssa.Value) bool { return isFieldLoad(v, "fsutil.lazyFileWriter.fileMode") }, 3)
+		ok := isFieldLoad(a[0], "fsutil.lazyFileWriter.dest") && c.DerivesFrom(a[1], isModeLoad, 3)
 		c.R.Check(ok, rule, c.siteName(call)+"/args", c.pos(call), "Chmod(dest, recorded mode)", "Close does not restore the recorded mode on the destination")
 	}
 	// the result of Close reports a failed close or a failed restore
